@@ -21,6 +21,10 @@
 //                              the 4096-byte multiples) parsed back ≠ tree   (boundary.go)
 //   C06/cs-large-grouping, C06/cs-large-roundtrip-<type>
 //                              the same for operator programs
+//   C06/core-kwspelled-roundtrip-<type>, C06/cs-kwspelled-grouping, C06/cs-kwspelled-roundtrip-<type>
+//                              a name or string whose bytes are those of a keyword or operator
+//                              (stream, endobj, R, true, Tj, …) at some position of an array,
+//                              dictionary, object sequence or operand list is not read back   (keywords.go)
 //   C06/panic, C06/hang
 package c06
 
@@ -581,7 +585,7 @@ func stage(n int) bool {
 func Run(c *hx.Ctx) {
 	x := runner{c}
 	defer keepWitnesses(c)
-	c.Rep.Rule = "object trees: every container skeleton to depth 4 (3 in quick) with ≤2 children per array/dict, leaves cycled over a 3-atom alphabet per type, plus random trees to depth 8 with strings/names over all 256 bytes, int64 limits and dyadic reals; each printed by an ISO 32000-1 §7.2-7.3 printer under 10 spelling policies (minimal/maximal white space, comments, CR/LF/CRLF, literal/escaped/octal/hex strings, #-escaped names, random mix); random operator programs (≤60 operations, all operand types, incl. ' \" T* d0); integer/reference sequences; every document-level input also through io.Readers with short reads (1,2,3,7,4095,… byte pieces, random schedules, last piece with io.EOF); large arrays/dictionaries/object sequences/nested containers/long strings and operator programs whose print crosses 1-3 multiples of the 4096-byte I/O buffer, each slid by a white-space or comment prefix of 0..K-1 bytes (K=40 quick, 130 thorough) so that every token and separator kind lies across offsets 4095/4096, 8191/8192, 12287/12288 in turn (distribution buckets straddle-*); plus a malformed stream (mutated prints and token soup) compared with the model by value-or-error only. non-trivial = parsed without error to a non-empty result."
+	c.Rep.Rule = "object trees: every container skeleton to depth 4 (3 in quick) with ≤2 children per array/dict, leaves cycled over a 3-atom alphabet per type, plus random trees to depth 8 with strings/names over all 256 bytes, int64 limits and dyadic reals; each printed by an ISO 32000-1 §7.2-7.3 printer under 10 spelling policies (minimal/maximal white space, comments, CR/LF/CRLF, literal/escaped/octal/hex strings, #-escaped names, random mix); random operator programs (≤60 operations, all operand types, incl. ' \" T* d0); integer/reference sequences; names and strings whose bytes are exactly a keyword or operator of the format (true false null R obj endobj stream endstream xref trailer startxref f n BI ID EI and all 70 content operators, plus one-byte-longer/shorter/other-case near misses) at every position of arrays, dictionaries (key, value, both; last and followed), nested containers, top-level sequences, next to integers and references, and of operand lists (also before the operator of the same spelling), under the ten policies (buckets kwspelled-*); every document-level input also through io.Readers with short reads (1,2,3,7,4095,… byte pieces, random schedules, last piece with io.EOF); large arrays/dictionaries/object sequences/nested containers/long strings and operator programs whose print crosses 1-3 multiples of the 4096-byte I/O buffer, each slid by a white-space or comment prefix of 0..K-1 bytes (K=40 quick, 130 thorough) so that every token and separator kind lies across offsets 4095/4096, 8191/8192, 12287/12288 in turn (distribution buckets straddle-*); plus a malformed stream (mutated prints and token soup) compared with the model by value-or-error only. non-trivial = parsed without error to a non-empty result."
 
 	// 1. exhaustive container skeletons ------------------------------------------------
 	depth := c.N(3, 4)
@@ -758,6 +762,11 @@ func Run(c *hx.Ctx) {
 	}
 	if stage(9) {
 		x.stageLargePrograms()
+	}
+
+	// 10. names and strings spelled like keywords / operators, at every position (keywords.go) ------
+	if stage(10) && !poisoned {
+		x.stageKeywordSpelled()
 	}
 
 	// 7. malformed / raw stream: value-or-error against the model only ---------------------------
